@@ -332,7 +332,7 @@ class Gen:
             if op in ("<<", ">>"):
                 b = {"k": "bin", "op": "&", "a": b, "b": {"k": "lit", "ty": "i32", "v": r.choice([3, 7, 15])}}
                 if op == "<<":
-                    a = {"k": "cast", "ty": r.choice(["u32", "u64", "u8", "u16"]), "a": a}
+                    a = {"k": "cast", "ty": r.choice([t for t in ("u32", "u64", "u8", "u16") if t in self.types] or ["u32"]), "a": a}
             return {"k": "bin", "op": op, "a": a, "b": b}
         if c < 0.65:
             return self.cond(depth)
@@ -528,3 +528,155 @@ def arg_vectors(prog, rng, n):
             v.append(x)
         vecs.append(v)
     return f, vecs
+
+
+# ------------------------------------------------- encoding for tla/Src.tla
+def word(v, n=8):
+    """Two's complement little-endian byte limbs (TLC integers are 32-bit)."""
+    v &= (1 << (8 * n)) - 1
+    return [(v >> (8 * i)) & 255 for i in range(n)]
+
+
+def _enc_expr(e):
+    k = e["k"]
+    if k == "lit":
+        return {"k": "lit", "ty": e["ty"], "w": word(e["v"])}
+    if k == "var":
+        return {"k": "var", "n": e["n"]}
+    if k == "idx":
+        return {"k": "idx", "a": e["a"], "e": _enc_expr(e["e"])}
+    if k == "fld":
+        return {"k": "fld", "s": e["s"], "f": e["f"]}
+    if k == "deref":
+        return {"k": "deref", "p": e["p"], "e": _enc_expr(e["e"])}
+    if k == "addr":
+        return {"k": "addr", "a": e["a"], "e": _enc_expr(e["e"])}
+    if k == "un":
+        return {"k": "un", "op": e["op"], "a": _enc_expr(e["a"])}
+    if k == "bin":
+        return {"k": "bin", "op": e["op"], "a": _enc_expr(e["a"]), "b": _enc_expr(e["b"])}
+    if k == "cast":
+        return {"k": "cast", "ty": e["ty"], "a": _enc_expr(e["a"])}
+    if k == "cond":
+        return {"k": "cond", "c": _enc_expr(e["c"]), "a": _enc_expr(e["a"]), "b": _enc_expr(e["b"])}
+    if k == "call":
+        return {"k": "call", "f": e["f"], "args": [_enc_expr(a) for a in e["args"]]}
+    raise AssertionError(k)
+
+
+def _enc_stmts(ss):
+    out = []
+    for s in ss:
+        k = s["k"]
+        if k == "decl":
+            out.append({"k": k, "n": s["n"], "ty": s["ty"], "e": _enc_expr(s["e"])})
+        elif k == "declarr":
+            out.append({"k": k, "n": s["n"], "ty": s["ty"], "len": s["len"], "init": [word(v) for v in s["init"]]})
+        elif k == "asg":
+            out.append({"k": k, "lhs": _enc_expr(s["lhs"]), "op": s["op"], "e": _enc_expr(s["e"])})
+        elif k == "inc":
+            out.append({"k": k, "lhs": _enc_expr(s["lhs"]), "op": s["op"]})
+        elif k == "if":
+            out.append({"k": k, "c": _enc_expr(s["c"]), "t": _enc_stmts(s["t"]), "f": _enc_stmts(s["f"])})
+        elif k in ("while", "dowhile"):
+            out.append({"k": k, "c": _enc_expr(s["c"]), "b": _enc_stmts(s["b"])})
+        elif k == "for":
+            out.append({"k": k, "v": s["v"], "lo": word(s["lo"]), "hi": _enc_expr(s["hi"]), "b": _enc_stmts(s["b"])})
+        elif k == "seq":
+            out.append({"k": k, "b": _enc_stmts(s["b"])})
+        elif k == "switch":
+            out.append({"k": k, "e": _enc_expr(s["e"]),
+                        "cases": [{"dflt": c["v"] is None, "w": word(c["v"] or 0), "b": _enc_stmts(c["b"]),
+                                   "brk": bool(c["brk"])} for c in s["cases"]]})
+        elif k in ("break", "continue"):
+            out.append({"k": k})
+        elif k in ("ret", "expr"):
+            out.append({"k": k, "e": _enc_expr(s["e"])})
+        else:
+            raise AssertionError(k)
+    return out
+
+
+def to_src(prog):
+    """The AST in the form tla/Src.tla reads: every integer that may exceed 31 bits as an 8-byte word,
+    no nulls, type-stable records.  Pure re-encoding, no typing or evaluation."""
+    gl = []
+    for g in prog["globals"]:
+        if "struct" in g:
+            gl.append({"n": g["n"], "gk": "st", "struct": [{"f": f["f"], "ty": f["ty"]} for f in g["struct"]],
+                       "init": [word(v) for v in g["init"]]})
+        elif g.get("len"):
+            gl.append({"n": g["n"], "gk": "a", "ty": g["ty"], "len": g["len"], "init": [word(v) for v in g["init"]]})
+        else:
+            gl.append({"n": g["n"], "gk": "s", "ty": g["ty"], "len": 0, "init": [word(v) for v in g["init"]]})
+    funcs = []
+    for f in prog["funcs"]:
+        funcs.append({"n": f["n"], "ret": f["ret"],
+                      "params": [{"n": p["n"], "ty": p["ty"], "ptr": bool(p.get("ptr")), "len": p.get("len", 0)}
+                                 for p in f["params"]],
+                      "body": _enc_stmts(f["body"])})
+    return {"globals": gl, "externs": [{"n": x["n"], "ret": x["ret"], "args": list(x["args"])} for x in prog["externs"]],
+            "funcs": funcs}
+
+
+def src_args(f, vec):
+    return [word(v, BITS[p["ty"]] // 8) for p, v in zip(f["params"], vec)]
+
+
+# ------------------------------------------------- gcc reference harness
+_FMT = {True: ("%lld", "long long"), False: ("%llu", "unsigned long long")}
+
+
+def _pr(label, expr, ty):
+    fmt, cty = _FMT[is_signed(ty)]
+    return 'printf("%s %s\\n", (%s)(%s));' % (label, fmt, cty, expr)
+
+
+def render_gcc_main(prog, f, vecs, ext):
+    """A complete C translation unit: the program, stub definitions of the externals that log their
+    arguments and answer from the stub table, and a main that runs f on vecs[argv[1]] and prints
+    RET / G lines.  Used only by the gcc reference guard (DESIGN 3.10)."""
+    out = ["#include <stdio.h>", "#include <stdlib.h>", render_c(prog)]
+    tab = {x["name"]: x["rets"] for x in ext}
+    for x in prog["externs"]:
+        rets = tab.get(x["n"], [])
+        vals = []
+        for w in rets:
+            v = sum(b << (8 * i) for i, b in enumerate(w))
+            v &= (1 << BITS[x["ret"]]) - 1
+            if is_signed(x["ret"]) and v >> (BITS[x["ret"]] - 1):
+                v -= 1 << BITS[x["ret"]]
+            vals.append(v)
+        out.append("static int n_%s;" % x["n"])
+        out.append("static const %s r_%s[] = {%s};" % (CNAME[x["ret"]], x["n"], ", ".join(map(str, vals + [0]))))
+        ps = ", ".join("%s a%d" % (CNAME[t], k) for k, t in enumerate(x["args"]))
+        body = ['printf("CALL %s");' % x["n"]]
+        for k, t in enumerate(x["args"]):
+            fmt, cty = _FMT[is_signed(t)]
+            body.append('printf(" %s", (%s)a%d);' % (fmt, cty, k))
+        body.append('printf("\\n");')
+        body.append("return n_%s < %d ? r_%s[n_%s++] : 0;" % (x["n"], len(vals), x["n"], x["n"]))
+        out.append("%s %s(%s) { %s }" % (CNAME[x["ret"]], x["n"], ps, " ".join(body)))
+    out.append("int main(int argc, char **argv) {")
+    out.append("  int k = atoi(argv[1]);")
+    out.append("  switch (k) {")
+    for k, vec in enumerate(vecs):
+        args = []
+        for p, v in zip(f["params"], vec):
+            # typed constant without relying on literal typing rules
+            args.append("(%s)%s" % (CNAME[p["ty"]], ("%dLL" % v) if v > -(1 << 63) else "(-9223372036854775807LL - 1)")
+                        if v < (1 << 63) else "(%s)%dULL" % (CNAME[p["ty"]], v))
+        out.append("  case %d: { %s r = %s(%s); %s break; }" % (k, CNAME[f["ret"]], f["n"], ", ".join(args), _pr("RET", "r", f["ret"])))
+    out.append("  }")
+    for g in prog["globals"]:
+        if "struct" in g:
+            for m in g["struct"]:
+                out.append("  " + _pr("G %s.%s" % (g["n"], m["f"]), "%s.%s" % (g["n"], m["f"]), m["ty"]))
+        elif g.get("len"):
+            for j in range(g["len"]):
+                out.append("  " + _pr("G %s[%d]" % (g["n"], j), "%s[%d]" % (g["n"], j), g["ty"]))
+        else:
+            out.append("  " + _pr("G %s" % g["n"], g["n"], g["ty"]))
+    out.append("  return 0;")
+    out.append("}")
+    return "\n".join(out) + "\n"
